@@ -177,25 +177,31 @@ class AliasedCheck:
         self.pid, self.tier, self.repo, self.title = chk.pid, chk.tier, chk.repo, chk.title
         self.extra: dict = {}
         self.analysed = chk.analysed
+        self.obligations: list = []  # what the foreign rule set recorded, under its own rule ids (some rules look at earlier obligations)
 
     def rule(self, rid, text):
         pass
 
     def ok(self, rule, site, what):
+        self.obligations.append({"rule": rule, "site": site, "what": what, "verdict": "discharged"})
         if rule in self._m:
             self._c.ok(self._m[rule], site, what)
 
     def bad(self, rule, site, function, tag, detail, witness):
+        self.obligations.append({"rule": rule, "site": site, "what": detail, "verdict": "VIOLATED", "tag": tag, "witness": witness, "function": function})
         if rule in self._m:
             self._c.bad(self._m[rule], site, function, tag, detail, witness)
 
     def unknown(self, rule, site, why):
+        self.obligations.append({"rule": rule, "site": site, "what": why, "verdict": "undecided"})
         if rule in self._m:
             self._c.unknown(self._m[rule], site, why)
 
     def require(self, rule, site, cond, what, function="", tag="", witness=""):
-        if rule in self._m:
-            return self._c.require(self._m[rule], site, cond, what, function, tag, witness)
+        if cond:
+            self.ok(rule, site, what)
+        else:
+            self.bad(rule, site, function, tag or what, "NOT: " + what, witness)
         return cond
 
     def floor(self, rule, n, minimum, what):
